@@ -31,6 +31,19 @@ def build(sc, prefix=()):
                    rlat=sc.get('rlat', RLAT), dt_gap=sc.get('dtgap', DTGAP), bam_gap=bamgap,
                    hold_gap=sc.get('holdgap', HOLDGAP))
     mon = Monitor(dll, win_of={SA: sc.get('win', 1)})
+    if sc.get('lose_dt') is not None:
+        # the j-th data packet the stack sends is lost on the bus (first transmission only); the peer asks for it again
+        peer.retx = True
+        mon.retx = True
+        cnt = {'n': 0}
+        dtpf = 0xEB if dll == 'j1939-21' else 0x4E
+
+        def drop_fn(fr):
+            if fr.src == 'S' and fr.pf == dtpf:
+                cnt['n'] += 1
+                return cnt['n'] == sc['lose_dt']
+            return False
+        bus.drop_fn = drop_fn
     bus.taps.append(mon.feed)
     w.run_for(0.01)
     return w, bus, st, ca, rec, peer, mon, ch
@@ -174,6 +187,19 @@ def scenarios(tier):
                     sc = {'dll': dll, 'role': 'orig', 'kind': 'p2p', 'size': size, 'win': win, 'grants': [1, 2],
                           'pat': size % 3, 'dp': size % 2, 'holds': [nh, 0]}
                     items.append((sc, 1 if quick else 2))
+        # (a3) J1939-22 only (the J1939-21 originator does not implement retransmission, see DESIGN 9): one data packet of the
+        #      stack is lost and the conforming peer asks for the packets again from the missing one on - which the standard lets a
+        #      responder do and the stack's CTS handler implements; the frames must still decode to the message
+        if dll == 'j1939-22':
+            for size in (121, 181, 240, 241):
+                nseg = (size + 59) // 60
+                for win in (2, 3, 255):
+                    for j in range(1, nseg + 1):
+                        if j % min(win, nseg) == 0 or j == nseg:
+                            continue        # the last packet of a window: the peer notices nothing until its timeout
+                        sc = {'dll': dll, 'role': 'orig', 'kind': 'p2p', 'size': size, 'win': win, 'grants': None,
+                              'pat': size % 3, 'holds': [0], 'rlat': [1e-3], 'dtgap': [0.0], 'lose_dt': j}
+                        items.append((sc, 0))
         # (b) conforming peer originates
         for size in small + mid + large:
             for win in wins:
